@@ -9,7 +9,7 @@ From Coq Require Import ZArith QArith Qabs List Bool Permutation Sorted.
 From VL Require Import Prelude.Sx Prelude.PyDict Prelude.GDict Model.Convert Proofs.Convert_proofs.
 From VL Require Import Model.Convert2 Proofs.Convert2_proofs Proofs.Round_proofs.
 From VL Require Import Proofs.ChainCands_proofs Proofs.RoundClass_proofs Proofs.ScoreSum_proofs Proofs.MergedSel_proofs.
-From VL Require Model.Cardinal Model.Validate Model.State Proofs.State_proofs Proofs.Eliminate_proofs.
+From VL Require Model.Cardinal Model.Validate Model.State Proofs.State_proofs Proofs.Eliminate_proofs Proofs.ScoreDict_proofs Proofs.ScoreOrder_proofs Proofs.MJ_proofs.
 Import ListNotations.
 Open Scope Q_scope.
 
@@ -420,6 +420,31 @@ Proof.
   rewrite (score_sum_runs cf _ Hf Hc Hv) in R. injection R as <-. rewrite (sum_out_value _ c Hv). apply psum_single.
 Qed.
 
+(* `sum` with a constant unscored_value v (profile_ok: counts >= 0, no ballot scores a candidate twice): every ballot also gives v to each candidate
+   OF THE PROFILE it does not score - a profile-dependent image like the positional one: additive on every candidate both profiles score *)
+Theorem C13_score_sum_unscored_value : forall (cf : Cardinal.score_cfg) (v : Q) (votes : Cardinal.sprofile) (c : C),
+  const_cfg cf v -> ScoreDict_proofs.profile_ok votes -> In c (map fst (Cardinal.raw_scores votes)) ->
+  exists out, Cardinal.score_to_simple cf votes = inl out /\ map fst out = map fst (Cardinal.raw_scores votes) /\
+    dget_or out c 0 == psum (fun s => s) c votes + v * (ptotal votes - psum (fun _ => 1) c votes).
+Proof.
+  intros cf v votes c Hc Hv Hin. exists (const_out v votes). split; [exact (score_const_runs cf v votes Hc Hv)|].
+  split; [apply const_out_keys|exact (const_out_value v votes c Hv Hin)].
+Qed.
+
+Theorem C13_score_sum_unscored_additive : forall (cf : Cardinal.score_cfg) (v : Q) (a b : Cardinal.sprofile) oa ob oab (c : C),
+  const_cfg cf v -> ScoreDict_proofs.profile_ok a -> ScoreDict_proofs.profile_ok b ->
+  In c (map fst (Cardinal.raw_scores a)) -> In c (map fst (Cardinal.raw_scores b)) ->
+  Cardinal.score_to_simple cf a = inl oa -> Cardinal.score_to_simple cf b = inl ob -> Cardinal.score_to_simple cf (a ++ b) = inl oab ->
+  dget_or oab c 0 == dget_or oa c 0 + dget_or ob c 0.
+Proof. exact score_const_additive. Qed.
+
+Theorem C13_score_sum_unscored_same_cands_needed_refuted :
+  exists cf a b oa ob oab c,
+    const_cfg cf 1 /\ ScoreDict_proofs.profile_ok a /\ ScoreDict_proofs.profile_ok b /\
+    Cardinal.score_to_simple cf a = inl oa /\ Cardinal.score_to_simple cf b = inl ob /\ Cardinal.score_to_simple cf (a ++ b) = inl oab /\
+    ~ dget_or oab c 0 == dget_or oa c 0 + dget_or ob c 0.
+Proof. exact score_const_needs_same_cands. Qed.
+
 (* the tallies every aggregate is computed from are additive, whatever the aggregate *)
 Theorem C13_score_tallies_additive : forall (phi : Q -> Q) (c : C) (a b : Cardinal.sprofile), phi_ok phi ->
   wq phi (ScoreOrder_proofs.look (Cardinal.raw_scores (a ++ b)) c) ==
@@ -660,3 +685,6 @@ Print Assumptions C13_rounded_exact_quotient_outside_class.
 Print Assumptions C13_rounded_half_between_refuted.
 Print Assumptions C13_rounded_half_class_exact.
 Print Assumptions C13_rounded_code_half_exact.
+Print Assumptions C13_score_sum_unscored_value.
+Print Assumptions C13_score_sum_unscored_additive.
+Print Assumptions C13_score_sum_unscored_same_cands_needed_refuted.
